@@ -803,7 +803,13 @@ fn generic_reduce_table(
     env: &mut Uiua,
 ) -> UiuaResult {
     // Reducing a table without rows gives the identity of the function, if it has one
-    if xs.rank() == 0 || ys.rank() == 0 || xs.row_count() == 0 || env.value_fill().is_some() {
+    // A table without columns still has the shape of its cells
+    if xs.rank() == 0
+        || ys.rank() == 0
+        || xs.row_count() == 0
+        || ys.row_count() == 0
+        || env.value_fill().is_some()
+    {
         env.push(ys);
         env.push(xs);
         table_impl(g, env)?;
